@@ -39,6 +39,7 @@ type stack struct {
 	done     chan struct{}
 	model    shimmodel.State
 	fired    int      // faults fired so far
+	kept     []keptReply // replies of raw relays that the caller still holds
 	acted    []string // identities another client added to the underlying agent during the call in progress
 	// actMayPurge: in-memory certificates that an orphan / expiry purge may have dropped at some moment of a call
 	// during which another client changed the underlying agent (consumed by resync)
@@ -170,6 +171,25 @@ func firstString(req []byte) []byte {
 		return nil
 	}
 	return req[5 : 5+n]
+}
+
+// keptReply is a reply a caller received earlier and still holds.
+type keptReply struct {
+	step      int
+	got, want []byte
+}
+
+// checkKept: what a caller was given stays what it was given, whatever went through the shim afterwards.
+func (s *stack) checkKept(o *sim.Outcome, mode string) {
+	for _, k := range s.kept {
+		if !bytes.Equal(k.got, k.want) {
+			o.Fail("C10.forward", "reply_changed_later", k.step, "[%s] step %d forward: the reply the caller received (%d bytes) was changed by later calls (now %x..., was %x...)", mode, k.step, len(k.want), k.got[:min(len(k.got), 24)], k.want[:min(len(k.want), 24)])
+			return
+		}
+	}
+	if len(s.kept) > 1 {
+		o.Probe("earlier_replies_intact_after_later_calls")
+	}
 }
 
 func (s *stack) call(f func() error) (res stepRes) {
@@ -309,6 +329,7 @@ func runHistory(p *SPlan, noUp bool, o *sim.Outcome, sigParts *[]string) []obsLi
 	if noUp {
 		mode = "noup"
 	}
+	defer func() { s.checkKept(o, mode) }()
 	var err error
 	cres := s.call(func() error {
 		var e error
@@ -568,6 +589,8 @@ func runHistory(p *SPlan, noUp bool, o *sim.Outcome, sigParts *[]string) []obsLi
 					o.Fail("C10.forward", "forward_bytes", i, "%s: raw request of %d bytes (%x...) relayed/answered as %d bytes (%x...) (the upstream echoes EE||request)", tag, len(req), req[:min(len(req), 24)], len(out), out[:min(len(out), 24)])
 				} else {
 					o.Probe("forward_relayed")
+					// the caller keeps its reply and looks at it again later (after other calls went through the shim)
+					s.kept = append(s.kept, keptReply{step: i, got: out, want: append([]byte(nil), out...)})
 				}
 			}
 		default:
